@@ -18,6 +18,7 @@ CLASSES = {
     "dict_str_ref": {"fields": {"keys": ("seq", "str"), "map": ("map", "str", "int")}, "bases": [], "lib": True},
     "dict_PDDLObject": {"fields": {"keys": ("seq", "str"), "map": ("map", "str", "int")}, "bases": [], "lib": True, "elem": "PDDLObject"},
     "dict_PDDLType": {"fields": {"keys": ("seq", "str"), "map": ("map", "str", "int")}, "bases": [], "lib": True, "elem": "PDDLType"},
+    "dict_Predicate": {"fields": {"keys": ("seq", "str"), "map": ("map", "str", "int")}, "bases": [], "lib": True, "elem": "Predicate"},
     "dict_PDDLFunction": {"fields": {"keys": ("seq", "str"), "map": ("map", "str", "int")}, "bases": [], "lib": True, "elem": "PDDLFunction"},
     "set_GroundedPredicate": {"fields": {"items": ("seq", ("ref", "GroundedPredicate"))}, "bases": [], "lib": True},
     "dict_set_GroundedPredicate": {"fields": {"keys": ("seq", "str"), "map": ("map", "str", "int")}, "bases": [], "lib": True,
@@ -61,7 +62,7 @@ CLASSES = {
     "MultiAgentDomainsConverter": {"fields": {"logger": ("ref", "opaque"), "domains_directory_path": ("ref", "Path")}, "bases": [],
                                    "src": ("multi_agent.multi_agent_domain_converter", "MultiAgentDomainsConverter")},
     "Domain": {"fields": {"name": "str", "requirements": ("ref", "list_str"), "types": ("ref", "dict_PDDLType"), "constants": ("ref", "dict_PDDLObject"),
-                          "predicates": ("ref", "dict_str_ref"), "functions": ("ref", "dict_str_ref"), "actions": ("ref", "dict_str_ref")},
+                          "predicates": ("ref", "dict_Predicate"), "functions": ("ref", "dict_str_ref"), "actions": ("ref", "dict_str_ref")},
                "bases": [], "src": ("models.pddl_domain", "Domain")},
     "ProblemParser": {"fields": {"domain": ("ref", "Domain"), "problem": ("ref", "Problem")}, "bases": [],
                       "src": ("lisp_parsers.problem_parser", "ProblemParser")},
